@@ -61,6 +61,7 @@ func TestCheck(t *testing.T) {
 		{name: "CMapImpl/defect-no-doublecheck", wantDefect: true, opts: tlc.Opts{Dir: specDir, Module: "CMapImpl", Config: "MC_defect_dc.cfg", Workers: 2, Timeout: 3 * time.Minute, Args: noTE}},
 		{name: "RingMC", opts: tlc.Opts{Dir: specDir, Module: "RingMC", Config: ev.Pick("RingMC_small.cfg", "RingMC_big.cfg"), Workers: 4, Timeout: ev.Pick(4*time.Minute, 20*time.Minute), HeapMB: 8000, Args: noTE, Keep: []string{"trans.ndjson"}}},
 		{name: "BufRingImpl", opts: tlc.Opts{Dir: specDir, Module: "BufRingImpl", Config: ev.Pick("BufMC_small.cfg", "BufMC_big.cfg"), Workers: 2, Timeout: ev.Pick(4*time.Minute, 20*time.Minute), Args: noTE}},
+		{name: "BufRingImpl/defect-empty-by-front-value", wantDefect: true, opts: tlc.Opts{Dir: specDir, Module: "BufRingImpl", Config: "BufMC_defect_nil.cfg", Workers: 2, Timeout: 3 * time.Minute, Args: noTE}},
 		{name: "BufRingImpl/defect-unlink-one-early", wantDefect: true, opts: tlc.Opts{Dir: specDir, Module: "BufRingImpl", Config: "BufMC_defect.cfg", Workers: 2, Timeout: 3 * time.Minute, Args: noTE}},
 	}
 	if ev.Thorough() { // MC_big.cfg: 3 processes on the map over 2 keys; MC_big_atomic.cfg: 3 processes on the atomic map
@@ -76,8 +77,8 @@ func TestCheck(t *testing.T) {
 	traces := int64(0)
 
 	// ---- (1) linearizability of map / atomic map / slice
-	nRandom := ev.Pick(3000, 30000)
-	nDuel := ev.Pick(2700, 24300)
+	nRandom := ev.Pick(2200, 30000)
+	nDuel := ev.Pick(2400, 24000)
 	type hrec struct {
 		prog  program
 		lines [][]byte // reset line + one JSON line per record (kept instead of the maps: 10x smaller)
@@ -100,7 +101,7 @@ func TestCheck(t *testing.T) {
 	for i := 0; i < nDuel; i++ {
 		record(duelProgram(rng, i), rng.Intn(5) != 0)
 	}
-	nStaged := ev.Pick(360, 3600)
+	nStaged := ev.Pick(400, 4000)
 	for i := 0; i < nStaged; i++ {
 		record(stagedProgram(rng, i), false)
 	}
@@ -131,7 +132,7 @@ func TestCheck(t *testing.T) {
 		// (3) buffered ring
 		nBuf = bufTraces(e, rand.New(rand.NewSource(ev.Seed()+2000003)))
 	}()
-	fmt.Printf("histories: %d recorded (%d random, %d duels, %d staged Range/ForEach), %d with overlapping calls %v\n", len(hists), nRandom, nDuel, nStaged, overlaps, byProg)
+	fmt.Printf("histories: %d recorded (%d random, %d duels, %d staged Range/ForEach or sequential), %d with overlapping calls %v\n", len(hists), nRandom, nDuel, nStaged, overlaps, byProg)
 	const chunk = 12000
 	linOpts := func(w int) tlc.Opts {
 		return tlc.Opts{Dir: specDir, Module: "TraceLin", Config: "TraceLin.cfg", Workers: w, Timeout: ev.Pick(6*time.Minute, 40*time.Minute), HeapMB: 12000}
@@ -147,7 +148,7 @@ func TestCheck(t *testing.T) {
 		for _, h := range hists[from:to] {
 			b.AppendTrace(h.lines)
 		}
-		missing, res := tv.ValidateDone(linOpts(8), b)
+		missing, res := tv.ValidateDone(linOpts(ev.Pick(12, 8)), b)
 		fmt.Printf("TLC linearization check [%d,%d): ok=%v rejected=%d distinct=%d wall=%s %s\n", from, to, res.OK, len(missing), res.Distinct, res.Wall.Round(time.Millisecond), res.What)
 		if !res.OK {
 			e.Inconclusive("linearization trace validation did not run: " + res.What + res.Tail(1500))
@@ -195,7 +196,7 @@ func TestCheck(t *testing.T) {
 	e.Set("states", states)
 	e.Set("transitions", transitions)
 	e.Set("checker_cmd", strings.Join(cmds, " ; "))
-	e.Set("defect_models_rejected", []string{"CMapImpl lad-split (LinOK)", "CMapImpl range-split (LinOK)", "CMapImpl no-doublecheck (SameHandle)", "BufRingImpl unlink-one-early (Refines)"})
+	e.Set("defect_models_rejected", []string{"CMapImpl lad-split (LinOK)", "CMapImpl range-split (LinOK)", "CMapImpl no-doublecheck (SameHandle)", "BufRingImpl unlink-one-early (Refines)", "BufRingImpl empty-by-front-value (Refines)"})
 
 	side.Wait()
 	evals += nGraph + nRingTraces + nBuf
@@ -624,11 +625,22 @@ func ringTraces(e *ev.Evidence, rng *rand.Rand) int64 {
 func bufTraces(e *ev.Evidence, rng *rand.Rand) int64 {
 	var cases []bufCase
 	L := ev.Pick(9, 12)
-	all := allMutationStrings(L)
+	all := allMutationStrings(L, "A")
+	// with nil elements in every position (N = AppendBack(nil)): shorter strings for every size pair, longer ones for four pairs
+	Ln, Ln4 := ev.Pick(5, 7), ev.Pick(7, 8)
+	withNil, withNil4 := allMutationStrings(Ln, "AN"), allMutationStrings(Ln4, "AN")
 	for isz := -1; isz <= 5; isz++ {
 		for bsz := -1; bsz <= 5; bsz++ {
 			for _, m := range all {
 				cases = append(cases, bufCase{isz, bsz, m})
+			}
+			for _, m := range withNil {
+				cases = append(cases, bufCase{isz, bsz, m})
+			}
+			if (isz == 1 && bsz == 1) || (isz == 0 && bsz == 2) || (isz == 3 && bsz == 1) || (isz == 2 && bsz == 3) {
+				for _, m := range withNil4 {
+					cases = append(cases, bufCase{isz, bsz, m})
+				}
 			}
 		}
 	}
@@ -644,12 +656,12 @@ func bufTraces(e *ev.Evidence, rng *rand.Rand) int64 {
 	for from := 0; from < len(cases); {
 		b := &tv.Batch{}
 		to := from
-		for to < len(cases) && b.Lines() < 300000 {
+		for to < len(cases) && b.Lines() < ev.Pick(420000, 300000) {
 			c := cases[to]
 			if p := runBuf(b, c); p != "" {
 				fmt.Printf("ring.Buffered panicked: %s on %+v\n", p, c)
 			}
-			if strings.Contains(c.Muts, "AR") {
+			if strings.Contains(c.Muts, "R") {
 				e.Nontrivial(fmt.Sprint("buf:", c))
 			}
 			to++
@@ -671,7 +683,7 @@ func bufTraces(e *ev.Evidence, rng *rand.Rand) int64 {
 		}
 		from = to
 	}
-	fmt.Printf("buffered: %d exhaustive sequences of length %d (x 49 size pairs) + %d random; %d events\n", nExh, L, len(cases)-nExh, events)
+	fmt.Printf("buffered: %d exhaustive sequences (A/R length %d and A/N/R length %d for 49 size pairs, A/N/R length %d for 4) + %d random; %d events\n", nExh, L, Ln, Ln4, len(cases)-nExh, events)
 	// earliest failure first; a failure class seen only with clamped sizes says so in its key
 	sort.SliceStable(rej, func(i, j int) bool { return rej[i].At < rej[j].At })
 	onlyB, onlyI, count := map[string]bool{}, map[string]bool{}, map[string]int{}
@@ -773,7 +785,7 @@ func selfTest(e *ev.Evidence) {
 		b := &tv.Batch{}
 		mk := func(last []int) {
 			b.Start(tv.M{"isz": 1, "bsz": 0})
-			b.Ev("op", tv.M{"op": "obs", "len": 0, "front": 0, "range": []int{}, "n": 1, "prange": []int{}})
+			b.Ev("op", tv.M{"op": "obs", "len": 0, "front": -1, "range": []int{}, "n": 1, "prange": []int{}})
 			b.Ev("op", tv.M{"op": "append", "v": 1, "n": 0, "res": 0})
 			b.Ev("op", tv.M{"op": "append", "v": 2, "n": 0, "res": 0})
 			b.Ev("op", tv.M{"op": "append", "v": 3, "n": 0, "res": 0})
